@@ -675,6 +675,8 @@ func pathOnlyVia(fn *ssa.Function, target ssa.Instruction, pred string) bool {
 func c21(r *Run) {
 	w := r.W
 	defer r.importRules(c20, "C20.R4")
+	// re-verification of processing blocks at the hand-over runs with the replay check
+	defer r.importRules(c09, "C09.R1")
 	r.rule("C21.R1", "K1/K20", "FinishStateSync under chainLock, refuses when ready, sets ready last after re-verification succeeded", 4)
 	r.rule("C21.R2", "K1", "target behind tip => reprocess then setLastAccepted; target == tip => setAccepted; then setLastProcessed", 4)
 	r.rule("C21.R3", "K2", "every failing processing block is recorded in the set given to the registered health check; pre-reject resolves", 7)
@@ -817,9 +819,42 @@ func c21(r *Run) {
 		for _, c := range callsNamed(vpb, nmSVM+"RegisterHealthChecker") {
 			r.failureLeadsToErrorReturn(w, "C21.R3", "verifyProcessingBlocks:register-error-returned", c)
 		}
-		if lit := w.Fn(nmSVM + "verifyProcessingBlocks$2"); lit != nil {
-			r.saw(lit)
-			r.check(len(findEffects(lit, "call (*snow.unresolvedBlockHealthCheck).Resolve(fv:unresolvedBlkCheck, (*).GetID(p1))")) == 1, "C21.R3", "verifyProcessingBlocks:pre-reject-resolves-id", w.rel(lit.Pos()), "", "the pre-reject subscription does not resolve the rejected block's ID")
+		var resolver *ssa.Function
+		for _, lit := range withNested(vpb) {
+			if lit != vpb && len(findEffects(lit, "call (*snow.unresolvedBlockHealthCheck).Resolve(*, (*).GetID(p1))")) == 1 {
+				resolver = lit
+			}
+		}
+		if resolver != nil {
+			r.saw(resolver)
+			r.ok("C21.R3", "verifyProcessingBlocks:pre-reject-resolves-id", w.rel(resolver.Pos()), "the pre-reject subscription resolves the rejected block's ID")
+			// rejections are tracked from before the snapshot of processing blocks: the subscription is installed first, it
+			// records every rejected ID, and recorded IDs are removed from the failed set before the health check is built
+			rec := findEffects(resolver, "call (*ago/utils/set.Set).Add(fv:rejected, [(*).GetID(p1)])")
+			snap := findEffects(vpb, "call (*sync.RWMutex).Lock(p0.verifiedL)")
+			diff := findEffects(vpb, "call (*ago/utils/set.Set).Difference(alloc(invalidBlkIDs), *)")
+			okT := len(rec) == 1 && len(rec[0].Conds()) == 0 && len(sub) == 1 && len(snap) >= 1 && len(diff) == 1 && len(nh) == 1
+			if okT {
+				okT = dominatesI(sub[0].Ins, snap[0].Ins) && dominatesI(diff[0].Ins, nh[0].Ins)
+				// the set subtracted is the one the subscription records into
+				for _, fv := range resolver.FreeVars {
+					if fv.Name() != "rejected" {
+						continue
+					}
+					if bd := bindingOf(fv); bd != nil {
+						arg := strip(callArgs(diff[0].Ins.(ssa.CallInstruction))[1])
+						same := sameValue(arg, strip(bd))
+						if ld, ok := arg.(*ssa.UnOp); ok && ld.X == bd {
+							same = true // the captured variable itself
+						}
+						okT = okT && same
+					}
+				}
+			}
+			r.check(okT, "C21.R3", "verifyProcessingBlocks:rejections-tracked-from-before-the-snapshot", w.rel(vpb.Pos()), "",
+				"a block rejected while processing blocks are re-verified is not taken out of the unresolved set (the subscription is installed after the snapshot, or recorded rejections are not subtracted): the node stays unhealthy forever")
+		} else {
+			r.bad("C21.R3", "verifyProcessingBlocks:pre-reject-resolves-id", w.rel(vpb.Pos()), "the pre-reject subscription does not resolve the rejected block's ID")
 		}
 	}
 
